@@ -39,7 +39,7 @@ theorem SInv_of_view (s s' : St) (h : sview s' = sview s) (hi : SInv s) : SInv s
   obtain ⟨a1, a2, a3, a4, a5, a6, a7, a8, a9, a10, a11, a12, a13, a14⟩ := hi
   constructor <;> simp only [h1, h2, h3, h4, h5, h6, h7] <;> assumption
 
-theorem SInv_init : SInv init := by
-  constructor <;> simp [init]
+theorem SInv_init (f p : Nat → Nat) : SInv (initSz f p) := by
+  constructor <;> simp [initSz]
 
 end FmpRpc.T
